@@ -1,5 +1,6 @@
 CONSTANTS
   KStride = 4
+  MirrorE = FALSE
 INIT Init
 NEXT Next
 INVARIANTS EInv ProjInv
